@@ -74,6 +74,9 @@ def run_case(w, rng):
             viol("no-allocation-observed", "construction did not call allocate()")
             return
         off = int(h._offset)
+        if (from_xobject or c.mode in (None, "aligned")) and c.reserved is None and root[0] % env.al:
+            # placed by the allocator on request of the constructor: the default and 'aligned' ask for the buffer's alignment
+            viol("object-not-aligned-as-requested", f"offset {root[0]} is not a multiple of the buffer alignment {env.al} (mode {c.mode})")
         if off != root[0]:
             viol("handle-offset-differs-from-allocation", f"_offset {off}, allocated {root}")
         A = [(root[0], root[0] + root[1])] + [(o, o + s) for o, s in allocs]
